@@ -177,12 +177,20 @@ def documents(ctx, n):
     rng = random.Random(ctx.seed * 503 + 11)
     ops, meta = [], []
     lits = []
-    for k in range(n):
-        doc = gen.gen_doc(rng) if rng.random() < 0.7 else gen.gen_cfn(rng)
+    # strings and keys with characters a C string or a line-oriented scanner would mishandle (U+0000, other controls, DEL,
+    # non-BMP, the byte-order mark inside a string), as JSON with and without \u escapes
+    HAND = [{'s': 'ab\u0000cd', 'k\u0000a': 1, 'k\u0000b': 2, 'l': ['\u0000', 'x\u0000', '']},
+            {'s': 'tab\there', 'n': 'line\nbreak', 'c': '\u0001\u001f\u007f', 'k\ty': {'\u0001': [1]}},
+            {'s': 'five \U0001f600', '\U0001f600': '\ufeffbom', 'e': '\u00e9\u0301', 'q': '"quoted" \\ back'}]
+    for k in range(n + len(HAND)):
+        hand = k >= n
+        doc = HAND[k - n] if hand else (gen.gen_doc(rng) if rng.random() < 0.7 else gen.gen_cfn(rng))
         if not isinstance(doc, (dict, list)):
             doc = {'v': doc}
         texts = [('json-compact', json.dumps(doc, ensure_ascii=False)), ('json-pretty', json.dumps(doc, indent=2, ensure_ascii=False))]
-        for name, em in c10.EMITTERS:
+        if hand:
+            texts.append(('json-escaped', json.dumps(doc, ensure_ascii=True)))
+        for name, em in ([] if hand else c10.EMITTERS):
             texts.append((name, em(rng, doc)[0]))
         for name, text in texts:
             for ld in ('cli', 'test', 'lib'):
@@ -202,6 +210,9 @@ def documents(ctx, n):
             rr = r.get('res')
             info = {'class': 'document-loading', 'serialisation': name, 'loader': ld, 'text': text[:1500], 'doc': lits[k]}
             if not rr or rr[0] != 'Ok':
+                if ld in ('cli', 'test') and re.search(r'\\u[dD][89abAB][0-9a-fA-F]{2}\\u[dD][c-fC-F][0-9a-fA-F]{2}|[\x7f-\x9f]', text):
+                    # JSON that is not YAML 1.1 (recorded finding): a surrogate-pair escape, a raw DEL / C1 control in a string
+                    info = dict(info, **{'class': 'json-not-yaml'})
                 ctx.failing('%s loader rejects the %s form of a generated document: %s' % (ld, name, str(rr)[:160]), info, found=True)
                 continue
             got = strip_dump(rr[1])
@@ -222,7 +233,7 @@ def documents(ctx, n):
         if d['result'][0] != 'Ok' or d['result'][1] != 'PASS':
             ctx.failing('a document does not equal itself written as a Guard value literal (%s)' % str(d['result'][:2]),
                         {'class': 'literal-self-equality', 'rules': op['rules'], 'data': op['data']}, found=True)
-    ctx.coverage['documents'] = n
+    ctx.coverage['documents'] = n + len(HAND)
     ctx.coverage['document_loadings_compared'] = cmp_n
     ctx.coverage['literal_self_equalities'] = nl
     ctx.coverage['evaluations'] += len(ops) + len(eops)
